@@ -45,8 +45,10 @@ Next == /\ (MaxDepth = 0 \/ TLCGet("level") < MaxDepth)
             /\ hj' = r[2]
             /\ call' = c @@ [out |-> r[1]]
             /\ taint' = (taint \/ (r[1] = "ok" /\ KF_BeatenReinstated(r[2])))
-            /\ bad' = IF taint' THEN {}
-                      ELSE StepClausesC(hj, ctx, c, r[1], r[2]) \cup (IF r[1] = "ok" THEN StateClauses(r[2]) ELSE {})
+            \* (KF-HJ1 is repaired: a state in which a beaten jump-off participant is back is itself a broken clause,
+            \* and nothing is suppressed after it any more)
+            /\ bad' = StepClausesC(hj, ctx, c, r[1], r[2]) \cup (IF r[1] = "ok" THEN StateClauses(r[2]) ELSE {})
+                      \cup (IF taint' THEN {"beaten_jumpoff_participant_reinstated"} ELSE {})
 
 Spec == Init /\ [][Next]_<<hj, call, bad, taint>>
 
